@@ -503,4 +503,18 @@ theorem physical_units_equivalent (img : Arr ℝ) (extent ang ps os : ℝ) :
       unfold smearKernel; congr 1; funext i j; simp only [Gen.bwSmearKernel, div_one, mul_one, mul_assoc]
     rw [smear_def, smear_def, hk]
 
+/-- **"the same extent expressed in samples" is the call that omits `pixelscale` and `oversample`.** With the default arguments as
+regenerated from the signatures of `jitter` / `smear` (`Gen.bwJitterDefaultPixelscale`, `…DefaultOversample`, …): a blur whose extent
+is given in physical units with a pixel scale and an oversampling factor equals the call that passes `extent / pixelscale · oversample`
+and nothing else; and `pixel(img)` is `pixel(img, 1)`. A changed default (say `oversample=2`) makes this false and the proof stops. -/
+theorem samples_call_is_default_call (img : Arr ℝ) (extent ang ps os : ℝ) :
+    jitter ℂ img extent ps os = jitterDefault ℂ img (extent / ps * os) ∧
+    smear ℂ img extent ang ps os = smearDefault ℂ img (extent / ps * os) ang ∧
+    pixelDefault ℂ img = pixel ℂ img 1 := by
+  obtain ⟨hj, hs⟩ := physical_units_equivalent img extent ang ps os
+  refine ⟨?_, ?_, ?_⟩
+  · rw [hj]; simp [jitterDefault, Gen.bwJitterDefaultPixelscale, Gen.bwJitterDefaultOversample, RealLike.ofInt]
+  · rw [hs]; simp [smearDefault, Gen.bwSmearDefaultPixelscale, Gen.bwSmearDefaultOversample, RealLike.ofInt]
+  · simp [pixelDefault, Gen.bwPixelDefaultOversample, RealLike.ofInt]
+
 end Lentil.C19
